@@ -17,24 +17,47 @@ RULE = ("Flow A: TLC enumerates every bit sequence up to MaxLen (10 quick / 14 t
         "Trace_Bignum. Distinct non-trivial = distinct (base, sequence) with length >= 2.")
 
 
+def int_digits(n):
+    """Decimal digits of a Python int without one big int -> str conversion (the interpreter limits those to 4300 digits, and the
+    limit is deliberately left in place because it is part of the environment the library runs in)."""
+    n = int(n)
+    if n < 0:
+        return [-1]
+    out = []
+    while n >= 10 ** 18:
+        n, r = divmod(n, 10 ** 18)
+        out.append("%018d" % r)
+    out.append(str(n))
+    return [int(c) for c in "".join(reversed(out))]
+
+
+def digits_int(s):
+    """Python int of a decimal string, built in 18-digit pieces (same reason)."""
+    n = 0
+    for i in range(0, len(s), 18):
+        piece = s[i:i + 18]
+        n = n * 10 ** len(piece) + int(piece)
+    return n
+
+
 def _to_num(base, seq, flag, container):
     if base == 2:
         arg = list(seq) if container == "list" else numpy.array(seq, dtype=int)
-        return impl.call(dsw.bit_to_number, arg, is_string=flag)
-    return impl.call(dsw.dna_to_number, impl.dna(seq), is_string=flag)
+        return impl.call(dsw.bit_to_number, arg, is_string=flag, _alarm=20 + len(seq) // 10)
+    return impl.call(dsw.dna_to_number, impl.dna(seq), is_string=flag, _alarm=20 + len(seq) // 5)
 
 
 def _from_num(base, num, w):
     if base == 2:
-        r = impl.call(dsw.number_to_bit, num, w)
+        r = impl.call(dsw.number_to_bit, num, w, _alarm=20 + w // 10)
         if r["out"] == "ok" and isinstance(r["value"], list):
             got = [int(x) for x in r["value"]]
             r["value"][:] = [1 - x for x in got] + [7]        # the caller owns the rendering: overwrite it in place ...
-            r2 = impl.call(dsw.number_to_bit, num, w)         # ... and render the same number again
+            r2 = impl.call(dsw.number_to_bit, num, w, _alarm=20 + w // 10)         # ... and render the same number again
             again = [int(x) for x in r2["value"]] if r2["out"] == "ok" else r2
             return got if again == got else {"first": got, "again_after_caller_modified_the_first_result": again}
         return [int(x) for x in r["value"]] if r["out"] == "ok" else r
-    r = impl.call(dsw.number_to_dna, num, w)
+    r = impl.call(dsw.number_to_dna, num, w, _alarm=20 + w // 5)
     return impl.undna(r["value"]) if r["out"] == "ok" else r
 
 
@@ -47,7 +70,7 @@ def _replay_one(rec):
             bad.append(("to-number-string-path", want, impl.jsonable(r.get("value", r))))
         r = _to_num(base, seq, False, cont)
         if r["out"] != "ok" or str(int(r["value"])) != want:
-            bad.append(("to-number-int-path", want, str(impl.jsonable(r.get("value", r)))))
+            bad.append(("to-number-int-path", want, str(impl.jsonable(r.get("value", r)))[:80]))
     for num in (want, int(want)):
         path = "string" if isinstance(num, str) else "int"
         g = _from_num(base, num, len(seq))
@@ -59,7 +82,7 @@ def _replay_one(rec):
     return bad
 
 
-def record(rng, n, maxbits, maxnt):
+def record(rng, n, maxbits, maxnt, force_max=False):
     cases = []
     for i in range(n):
         base = 2 if i % 2 == 0 else 4
@@ -67,6 +90,8 @@ def record(rng, n, maxbits, maxnt):
                         maxbits if base == 2 else maxnt])
         L = min(L, maxbits if base == 2 else maxnt)
         kind = i % 5
+        if force_max:
+            L, kind = (maxbits if base == 2 else maxnt), 3
         if kind == 0:
             seq = [0] * L
         elif kind == 1:
@@ -81,10 +106,10 @@ def record(rng, n, maxbits, maxnt):
         ri = _to_num(base, seq, False, cont)
         c = {"kind": "conv", "base": base, "seq": seq, "w": w, "container": cont}
         c["str"] = [int(x) for x in rs["value"]] if rs["out"] == "ok" else [-1]
-        c["int"] = [int(x) for x in str(int(ri["value"]))] if ri["out"] == "ok" and int(ri["value"]) >= 0 else [-1]
+        c["int"] = int_digits(ri["value"]) if ri["out"] == "ok" else [-1]
         num_s = rs["value"] if rs["out"] == "ok" else "0"
         b1 = _from_num(base, num_s, w)
-        b2 = _from_num(base, int(num_s), w)
+        b2 = _from_num(base, digits_int(num_s), w)
         c["back_str"] = b1 if isinstance(b1, list) else [-1]
         c["back_int"] = b2 if isinstance(b2, list) else [-1]
         cases.append(c)
@@ -110,6 +135,9 @@ def run(ctx):
     ctx.sample({"flow": "A", "record": recs[len(recs) // 2]})
     rng = random.Random(ctx.seed * 15485863 + 16)
     cases = record(rng, 60 if ctx.quick else 500, 4096 if not ctx.quick else 1024, 2048 if not ctx.quick else 512)
+    # beyond 4300 decimal digits (about 14 300 bits / 7 150 nt): path agreement and round trip
+    if not ctx.quick:         # several minutes of string arithmetic in the library itself: thorough tier only
+        cases += record(rng, 2, 14500, 7300, force_max=True)
     path = os.path.join(ctx.workdir, "c16_trace.json")
     with open(path, "w") as f:
         json.dump({"cases": cases}, f)
